@@ -205,14 +205,14 @@ theorem busy_while_waiting (cfg : Cfg) (tbl : List Nat) (hsorted : (cfg.queues.m
     | fdt _ _ _ => simp only []; omega
 
 /-- polling one instant at which a waiting object may transfer: within `mu + 1` calls one of them starts it -/
-theorem starts_within (cfg : Cfg) (tbl : List Nat) (hdur : 0 < cfg.fdtDuration)
+theorem starts_within (cfg : Cfg) (tbl : List Nat)
     (hsorted : (cfg.queues.map (fun x => x.1)).Pairwise (fun a b => a < b)) (ops : List Op) (a N : Nat) (f0 : FileDesc)
     (he : WaitsEligible (run (init cfg tbl) ops) a N f0) (hprio : f0.prio ∈ cfg.queues.map (fun x => x.1))
     (tks : List (List (Nat × Nat))) (hlen : mu N tbl (run (init cfg tbl) ops) + 1 ≤ tks.length) :
     ¬ CleanSeq a N (run (init cfg tbl) ops) tks := by
   intro hclean
   have h1 := busy_while_waiting cfg tbl hsorted _ a N f0 he hprio tks ops (Mono.refl _) he.waits hclean
-  have h2 := busy_reads_bounded cfg tbl hdur ops N tks
+  have h2 := busy_reads_bounded cfg tbl ops N tks
   omega
 
 end Flute.Sched
